@@ -64,6 +64,61 @@ CLAIMED.update({
               "Lean 4 spec of selection validation + stateful model-based correspondence", "§3 C16"),
 })
 
+CLAIMED.update({
+    "C04": _c("Lean model of _get_bounds and of both .cx paths (mask path; indexed path = R-tree covers ∪ filtered overlaps, sorted) with the "
+              "theorems of Props/C04.lean; correspondence over array / GeoSeries / GeoDataFrame, 20 slice-end patterns, no index and indexes of page "
+              "size 1/2/3/512 built before or after a first query; the model is run with the implementation's own key permutation.",
+              STD_NOTE, "Lean 4 proof (cx = filter; index path = mask path from C03 + C01) + correspondence", "§3 C04"),
+    "C05": _c("Lean model of the spatial join (pair table from the exact predicate, join shape per how) with the theorems of Props/C05.lean; "
+              "correspondence compares complete result rows (columns, suffixes, index labels) as multisets for left point frames with duplicates / "
+              "missing points / four index kinds and right frames of every kind incl. missing geometries and empty frames.",
+              STD_NOTE + "pandas.merge is modelled relationally (trusted base).", "Lean 4 proof about the join model + correspondence", "§3 C05"),
+    "C06": _c("Lean partition model (partition bounds, NaN-ignoring total bounds, cx over kept partitions) with the theorems of Props/C06.lean; "
+              "correspondence: every Dask operation against the same operation on the concatenation of the partitions for seven provenances, plus "
+              "partition_bounds / cx against the Lean model.",
+              STD_NOTE + "Dask graph construction/execution, meta inference, from_delayed are exercised, not modelled.",
+              "Lean 4 proof about the partition model + Dask-vs-pandas correspondence", "§3 C06"),
+    "C08": _c("Lean exact-arithmetic reference for hilbert_distance (cell of the bbox centre, clip, degenerate extents) with the theorems of "
+              "Props/C08.lean; equality with the reference where the scaling arithmetic is exact (power-of-two extents, also far from the origin), "
+              "range / independence / argument-unmodified clauses for arbitrary floats and every argument type.",
+              STD_NOTE + "Float rounding of the scaling outside the exact regime is not interpreted.", "Lean 4 proof about the reference cell + correspondence", "§3 C08"),
+    "C09": _c("Lean packing model (stable sort by key, any cut points) with the theorems of Props/C09.lean; correspondence: multiset of complete rows, "
+              "index = Hilbert distance of the active geometry w.r.t. whole-frame bounds, monotonicity, partition count, independence of the input "
+              "partitioning, and the model run with the cut points Dask chose.",
+              STD_NOTE + "Dask's shuffle / quantile divisions are the unmodelled runtime; one known finding (D16) is listed in known_findings.json.",
+              "Lean 4 proof about the packing model + correspondence", "§3 C09"),
+    "C10": _c("The real function on the local filesystem through a logging fsspec wrapper: whole directory tree, returned frame and independent read "
+              "for three tempdir modes x empty output partitions x prior datasets; Lean model of the renumbering moves (Props/C10.lean).",
+              STD_NOTE + "The protocol model covers the renumbering step only so far (partial); parquet encoding is pyarrow's.",
+              "Lean 4 proof about the renumbering + filesystem-level trace inspection", "§3 C10"),
+    "C11": _c("Lean model of what spatialpandas contributes (dtype-name printer/parser over the registry regenerated from the source, column "
+              "projection) with the theorems of Props/C11.lean; real round trips for all kinds / subtypes / index kinds / derived arrays / partitions / "
+              "projections / lists and globs, with equal-valued frames of different subtype alive in the process.",
+              STD_NOTE + "Partial by nature: byte-level fidelity of pyarrow / pandas is observed, not proved.",
+              "Lean 4 proof (decide over the regenerated registry) + round-trip correspondence", "§3 C11"),
+    "C12": _c("Lean model of partition pruning and natural part order (Props/C12.lean); correspondence: recorded vs true per-partition bounds for both "
+              "writers, 1..16 partitions, every geometry column, list / reversed list / glob of datasets, pruning vs the model, no intersecting row lost, "
+              "bounds after pruning.", STD_NOTE, "Lean 4 proof about pruning + correspondence", "§3 C12"),
+    "C17": _c("Metamorphic correspondence for every operation named in the property (inert rows inserted first / last / whole page / every position / "
+              "all rows / whole Dask partition / scattered) on top of the inertness corollaries of Props/C17.lean.",
+              STD_NOTE, "Lean 4 corollaries of the C01/C03/C04/C05/C13 models + metamorphic correspondence", "§3 C17"),
+    "C18": _c("Lean: every parallel loop found in the source (table regenerated per run) stores only to result[loop variable] and has no reduction "
+              "(decide), renumbering moves are order dependent (negative witness); runtime: schedule sampling over numba threads, client threads on a "
+              "shared un-indexed object, Dask schedulers, pack_partitions_to_parquet with filesystem delays.",
+              STD_NOTE + "Partial by nature: memory-model effects, GIL release points and the Dask scheduler are not in any model; sampling supports, it does not prove.",
+              "Lean 4 proof over the regenerated write-set table + schedule sampling", "§3 C18"),
+    "C19": _c("Fault-injecting fsspec filesystem: one fault at every call position (OSError everywhere; FileNotFoundError / stale listing / partial "
+              "write where applicable), default and external temp dir, with empty output partitions; thorough adds all kinds everywhere, pairs and "
+              "bursts beyond the retry budget; outcome must be 'raised' (then a fault-free overwrite run reproduces the dataset) or an identical dataset. "
+              "Lean: idempotence of the guarded move (Props/C19.lean).",
+              STD_NOTE + "Partial: the retry-block restartability proof over the whole protocol is not done; crash semantics below fsspec are not modelled.",
+              "exhaustive single-fault enumeration on the real code + Lean lemma on the guarded move", "§3 C19"),
+    "C20": _c("Lean specification machine for the active geometry (init resolution, set_geometry validation, row operations, column subsets) with the "
+              "theorems of Props/C20.lean; correspondence over random operation sequences on pandas and Dask frames (per-partition active column, "
+              "held-partition histories), spatial operations against the explicitly selected column.",
+              STD_NOTE + "pandas' __finalize__ routing is observed, not modelled.", "Lean 4 proof about the specification machine + correspondence", "§3 C20"),
+})
+
 PENDING_REASON = "check not built yet in this round (planned, see DESIGN.md §8); not claimed"
 
 
